@@ -8,7 +8,43 @@ import scancorr
 
 # ---------------------------------------------------------------------------- running
 
-def run_isolated(binary, args, lines, timeout=600, shards=12):
+def parse_strace(path):
+    """accesses between the harness's begin/end markers -> {case id: [(kind, relative path)]}"""
+    import re as _re
+    out, cur, root = {}, None, None
+    rx = _re.compile(r'^\d+\s+(\w+)\((?:AT_FDCWD|\d+),?\s*"((?:[^"\\]|\\.)*)"(.*)$')
+    try:
+        fh = open(path, errors="replace")
+    except OSError:
+        return out
+    for line in fh:
+        m = rx.match(line)
+        if not m:
+            continue
+        call, p, rest = m.group(1), m.group(2), m.group(3)
+        if p.startswith("/verif-mark-begin-"):
+            body = p[len("/verif-mark-begin-"):]
+            cid, _, rhex = body.rpartition("-")
+            cur, root = cid, bytes.fromhex(rhex).decode()
+            out[cur] = []
+            continue
+        if p.startswith("/verif-mark-end-"):
+            cur = None
+            continue
+        if cur is None:
+            continue
+        try:
+            p = p.encode("latin1").decode("unicode_escape").encode("latin1").decode("utf-8", "replace")
+        except Exception:
+            pass
+        kind = "read" if call in ("openat", "open") else "stat"
+        rel = os.path.relpath(p, root) if p.startswith("/") else p
+        out[cur].append((kind, rel))
+    fh.close()
+    return out
+
+
+def run_isolated(binary, args, lines, timeout=600, shards=12, strace_dir=None):
     """Like run_lines, but a worker that dies (fatal stack overflow, OOM, hang) is attributed to
     the case it was running, which gets a synthetic result; the rest of the shard is re-run."""
     if not lines:
@@ -22,8 +58,17 @@ def run_isolated(binary, args, lines, timeout=600, shards=12):
     def work(chunk):
         todo = list(chunk)
         while todo:
-            p = subprocess.Popen([binary] + args, stdin=subprocess.PIPE, stdout=subprocess.PIPE,
-                                 stderr=subprocess.PIPE, text=True)
+            cmd = [binary] + args
+            env = None
+            if strace_dir is not None:
+                import tempfile
+                fd, logp = tempfile.mkstemp(prefix="st", suffix=".log", dir=strace_dir)
+                os.close(fd)
+                cmd = ["strace", "-f", "-e", "trace=openat,open,newfstatat,statx,stat,lstat,access,readlink,readlinkat",
+                       "-o", logp] + cmd
+                env = dict(os.environ, VERIF_MARKERS="1")
+            p = subprocess.Popen(cmd, stdin=subprocess.PIPE, stdout=subprocess.PIPE,
+                                 stderr=subprocess.PIPE, text=True, env=env)
             try:
                 o, e = p.communicate("\n".join(todo) + "\n", timeout=timeout)
                 hung = False
@@ -78,8 +123,15 @@ def model_line(case, gout):
     names = [case["root"]] + sorted(n for n in case["files"] if n != case["root"])
     for n in names:
         toks.append("F:%s:%s" % (hexs(n), case["files"][n]))
-    for d in case.get("dirs", []):
+    dirs = set(case.get("dirs", [])) | {".", ".."}
+    for n in list(case["files"]) + ["../" + o for o in (case.get("outer") or {})]:
+        while "/" in n:
+            n = n.rsplit("/", 1)[0]
+            dirs.add(n)
+    for d in sorted(dirs):
         toks.append("D:%s" % hexs(d))
+    for n, h in (case.get("outer") or {}).items():
+        toks.append("F:%s:%s" % (hexs("../" + n), h))
     toks.append("R:%s" % hexs(case["root"]))
     msgs = []
     for fo in gout.get("oracle") or []:
@@ -260,10 +312,10 @@ def compare(case, g, crash, m, oracle_msgs):
     return None
 
 
-def run_tree(cases, shards=12):
+def run_tree(cases, shards=12, strace_dir=None):
     """cases: list of dicts {id, files{name: hex}, dirs[], root}. -> (impl results, crashes, model results, mismatches)"""
     lines = [json.dumps(c) for c in cases]
-    gres, crashes = run_isolated(os.path.join(BUILD, "harness"), ["tree"], lines, shards=shards)
+    gres, crashes = run_isolated(os.path.join(BUILD, "harness"), ["tree"], lines, shards=shards, strace_dir=strace_dir)
     mlines, msgs = [], {}
     for c in cases:
         g = gres.get(c["id"], {})
